@@ -56,4 +56,9 @@ CHECKS = {
         technique='independent membership oracle vs SearchSpace.contains on exhaustive small-space products + Hypothesis single-edit near-miss cases; builder validity oracle; independent dfs/bfs walk',
         text='Membership of flat spaces is compared with a vizier-free oracle over ~9e4 exhaustively enumerated assignments of 30 small spaces plus thousands of generated single-edit near-miss / coerced-member cases (wrong types, bools vs True/False strings, ints as floats, missing/extra keys, non-finite and huge values); builder calls (add_*_param, ParameterConfig.factory) are judged against the statement\'s list of invalid definitions and the normal form of what was built; conditional spaces must refuse contains; SequentialParameterBuilder (dfs and bfs, with skips) is compared with an independent walk of the JSON spec; clients.Study.add_trial must raise ValueError exactly for non-members and store nothing.',
         note='trusts the coercion table of DESIGN C16 (bool = int = True/False strings, integral float = int, str never numeric), harness/spaces.py builders; add_trial exercised in-process on RAM'),
+    'C11': dict(
+        category=EXPL,
+        technique='brute-force dominance definition vs every Pareto routine: exhaustive small point lists + Hypothesis tie-heavy multisets; served histories and in-RAM queries vs the same definition',
+        text='All 7 502 ordered point lists with n<=4, d<=2 over a 3-value grid are enumerated exhaustively against the naive, divide-and-conquer (thresholds 1,2,3,5,1e4), JAX (num_shards 1,2,3,10,50, rank) routines and nsga2._pareto_rank; Hypothesis adds tie-heavy multisets (n<=40, d<=4, +-inf, -0.0). Service histories on RAM and SQL (mixed goals, safety metric, succeeded / infeasible / active / requested / stopping / deleted trials, missing, extra, NaN and infinite metrics) compare clients.Study.optimal_trials() with the definition after every step; InRamPolicySupporter.GetBestTrials is checked for every count incl. None and for side effects.',
+        note='trusts harness/c11_ref.py (plain-float brute force), float32-exact inputs for the JAX and in-RAM routines, recursive_threshold>=1 and num_shards>=1 as preconditions'),
 }
